@@ -383,8 +383,10 @@ Inductive ghost :=
 | GCommit (i : N) (by_leader : bool) (t : N) (idx : N) (e : option entry)
                                                     (* i (at term t) committed index idx holding e *)
 | GStaleVote (i req_term cur_term : N)              (* candidate i counted a Vote/Ok of another term *)
-| GAckDiverged (f l : N).                           (* f answered Ok to l's Append/Heartbeat while its log up to
+| GAckDiverged (f l : N)                            (* f answered Ok to l's Append/Heartbeat while its log up to
                                                        its log index differs from l's log *)
+| GAckBelowVote (f req_term voted : N).             (* f answered Ok to an Append/Heartbeat of term req_term although it
+                                                       had answered Ok to a Vote request of the higher term voted *)
 
 Record cluster := mkCluster { c_nodes : list node; c_net : list msg; c_hist : list ghost }.
 
@@ -422,8 +424,14 @@ Definition node_ghosts (old new : node) : list ghost :=
 Definition is_vote (k : rkind) : bool := match k with KVote => true | _ => false end.
 Definition is_ok (s : rresult) : bool := match s with ROk => true | _ => false end.
 
+(* highest term in which `v` answered Ok to a Vote request *)
+Definition voted_term (h : list ghost) (v : N) : N :=
+  fold_left (fun m g => match g with GVote v' t _ => if v' =? v then N.max m t else m | _ => m end) h 0.
+
 Definition request_ghosts (c : cluster) (new : node) (r : request) (s : response) : list ghost :=
   (if is_vote (q_kind r) && is_ok (s_result s) then [GVote (n_index new) (q_term r) (q_from r)] else []) ++
+  (if is_append_or_hb (q_kind r) && is_ok (s_result s) && (q_term r <? voted_term (c_hist c) (n_index new))
+   then [GAckBelowVote (n_index new) (q_term r) (voted_term (c_hist c) (n_index new))] else []) ++
   (if is_append_or_hb (q_kind r) && is_ok (s_result s) then
      match get_node c (q_from r) with
      | Some sender =>
@@ -545,8 +553,13 @@ Definition old_term_commit_b (h : list ghost) : bool :=
                     | GCommit _ true _ _ None => true
                     | _ => false end) h.
 
+(* a node acknowledged an Append/Heartbeat of a term lower than a term it had already voted in
+   (voting does not raise the voter's term) *)
+Definition ack_below_vote_b (h : list ghost) : bool :=
+  existsb (fun g => match g with GAckBelowVote _ _ _ => true | _ => false end) h.
+
 Definition known_class_b (h : list ghost) : bool :=
-  double_vote_b h || stale_vote_b h || ack_diverged_b h || old_term_commit_b h.
+  double_vote_b h || stale_vote_b h || ack_diverged_b h || old_term_commit_b h || ack_below_vote_b h.
 
 (* ------------------------------------------------------------------ C30: fault-free schedules *)
 
